@@ -828,6 +828,7 @@ static ssize_t send_impl(int fd, const void *buf, size_t len, int flags) {
             if (f.arg == EAGAIN) { G->logf("send(%d,%zu) = EAGAIN [fault]", fd, len); KERR(C_SEND, EAGAIN); }
             tcp_die_now(s, (int)f.arg);
             G->count("fault.applied_errno");
+            if (lib_ctx() && !cur()->api_fault_errno) { cur()->api_fault_errno = (int)f.arg; cur()->api_fault_on_write = true; }
             G->logf("send(%d,%zu) = %s [fault]", fd, len, strerror((int)f.arg));
             KERR(C_SEND, (int)f.arg);
         }
@@ -936,6 +937,7 @@ ssize_t recv(int fd, void *buf, size_t len, int flags) {
             if (f.arg == EAGAIN) { G->logf("recv(%d,%zu) = EAGAIN [fault]", fd, len); KERR(C_RECV, EAGAIN); }
             tcp_die_now(s, (int)f.arg);
             G->count("fault.applied_errno");
+            if (lib_ctx() && !cur()->api_fault_errno) { cur()->api_fault_errno = (int)f.arg; cur()->api_fault_on_write = false; }
             s->in->rq.clear();
             G->logf("recv(%d,%zu) = %s [fault]", fd, len, strerror((int)f.arg));
             KERR(C_RECV, (int)f.arg);
@@ -1164,6 +1166,10 @@ int poll(struct pollfd *fds, nfds_t n, int timeout_ms) {
     bool hit = fault_hit("poll", f);
     if (timeout_ms != 0) maysleep_check(timeout_ms < 0 ? "poll(-1)" : "poll(timeout>0)");
     if (hit && f.kind == "eintr" && timeout_ms != 0) { G->logf("poll() = EINTR [fault]"); KERR(C_POLL, EINTR); }
+    // ambient: a signal handler runs while the library waits inside a blocking call (data-path calls only: an interrupted
+    // connection set-up leaves a half-made connection behind whose fate is the application's own business)
+    if (K->p_eintr > 0 && timeout_ms != 0 && lib_ctx() && !G->stopping && cur()->api_name && (!strcmp(cur()->api_name, "xcm_send") || !strcmp(cur()->api_name, "xcm_receive") || !strcmp(cur()->api_name, "xcm_finish")) &&
+        G->r_fault.chance(K->p_eintr)) { G->count("fault.eintr_wait"); G->kmut++; G->logf("poll() = EINTR [ambient]"); KERR(C_POLL, EINTR); }
     // unwinding at the end of a run: every wait is interrupted, whether or not something is ready, so that
     // library-internal wait loops (blocking calls) return to the harness
     if (G->stopping && timeout_ms != 0) KERR(C_POLL, EINTR);
